@@ -121,7 +121,13 @@ SetLenT(v) == /\ (aln # BadAln \/ susp) /\ v \in {0, 1} /\ v # lenA /\ lenA' = v
               /\ UNCHANGED <<blk, const, val, mp, aln, susp>>
 SetLen(v) == SetLenT(v) /\ Log("SetLen", <<v>>)
 
+(* a rule that is REFUSED part-way through the scopes it names (bounds that cannot hold on one of them): an exception,
+   and nothing at all has changed - neither now nor as seen by any later call *)
+RefusedRuleT == (aln # BadAln \/ susp) /\ UNCHANGED <<blk, const, val, mp, aln, susp, lenA>>
+RefusedRule == RefusedRuleT /\ Log("RefusedRule", <<>>)
+
 Next == \/ \E v \in {0, 1} : SetLen(v)
+        \/ RefusedRule
         \/ \E S \in SUBSET Edges \ {{}}, i \in BOOLEAN, c \in BOOLEAN, v \in Vals \cup {NoVal} : SetRule(S, i, c, v)
         \/ \E m \in Mprobs : SetMprobs(m)
         \/ \E a \in Alns : SetAln(a)
